@@ -47,7 +47,8 @@ def needles(fname, case, res):
 
 def run_monitored(item):
     """-> list of findings (strings); executes success exit and every allocation-fault exit"""
-    fname, case = item
+    fname, case = item[0], item[1]
+    plain = item[2] if len(item) > 2 else None
     L = common.lib(CFG)
     snap = (ctypes.c_ubyte * SNAP)()
     stats = (ctypes.c_long * 8)()
@@ -65,6 +66,13 @@ def run_monitored(item):
         return res, blocks, list(stats)
     res, blocks, st = once(0)
     nd = needles(fname, case, res)
+    if plain and len(set(plain)) > 2:
+        # a failing unwrap of an AUTHENTIC token (wrong expected header, wrong side input) has decrypted the real content: it is a secret
+        # of this call although the caller never receives it
+        for i in range(0, len(plain) - 7):
+            w = bytes(plain[i:i + 8])
+            if len(set(w)) > 3:
+                nd.setdefault(w, 'content protected by the presented token[%d..%d)' % (i, i + 8))
     found = []
     nblocks = len(blocks)
     def scan(blocks, exitname):
@@ -172,11 +180,15 @@ def cases_for(tier):
     cs = [c for c in corpora.all_cases('quick') if cat.CAT[c[0]].secrets and cat.CAT[c[0]].ret == 'err'
           and (getattr(cat.CAT[c[0]], 'impl', None) is None or getattr(cat.CAT[c[0]], 'faultable', False))]
     # error exits reached after the allocation: authentication failures
-    for f, c, plain, field, bit in C09.auth_cases('quick')[::7 if tier == 'quick' else 2]:
-        if cat.CAT[f].secrets:
-            cs.append((f, c))
+    # thinned per (function, altered field) class, the first member of every class always kept: classes such as
+    # 'authentic token, other expected header' have one or two members only
     if tier == 'quick':
         cs = C07.thin(cs)
+    seen = {}
+    for f, c, plain, field, bit in C09.auth_cases('quick'):
+        k = (f, field); seen[k] = seen.get(k, 0) + 1
+        if cat.CAT[f].secrets and (seen[k] - 1) % (7 if tier == 'quick' else 2) == 0:
+            cs.append((f, c, plain))
     return cs
 
 def sub(tier, what, out):
@@ -186,8 +198,11 @@ def sub(tier, what, out):
     cs = cases_for(tier)
     res = vf.pmap(run_monitored, cs, case_timeout=300)
     viol = []; nblocks = 0; nruns = 0; nneedles = 0; fns = set()
-    for (f, c), r in zip(cs, res):
+    for item, r in zip(cs, res):
+        f, c = item[0], item[1]
         rec = {'cfg': CFG, 'kind': 'wipe', 'fn': f, 'case': cat.enc_case(c)}
+        if len(item) > 2 and item[2]:
+            rec['plain'] = bytes(item[2]).hex()
         if isinstance(r, dict) and CFG != 'asan':
             continue          # crashes are C07's / C09's business and are judged there under the sanitizer
         if isinstance(r, dict):
@@ -236,7 +251,8 @@ def replay(rec):
     if rec.get('kind') != 'wipe':
         return None
     CFG = rec.get('cfg', 'asan')
-    r = vf.pmap(run_monitored, [(rec['fn'], cat.dec_case(rec['case']))], nproc=1)[0]
+    item = (rec['fn'], cat.dec_case(rec['case'])) + ((bytes.fromhex(rec['plain']),) if rec.get('plain') else ())
+    r = vf.pmap(run_monitored, [item], nproc=1)[0]
     if isinstance(r, dict):
         return C07.classify(r.get('stderr', '') or r.get('crash', ''))[1]
     return r[0][0] if r[0] else None
